@@ -4,7 +4,7 @@ dispatch tables are inverse."""
 from vlib import fixtures
 import re
 
-from rules import pair, order
+from rules import pair, order, trunc
 from rules.variant import storage_switches, arm_region
 from vlib.mir import Fn, op_local
 from vlib.run import Broken
@@ -18,7 +18,7 @@ NAME_PAIRS = [("serialize", "deserialize"), ("serialize_with_version", "deserial
 
 def run(ctx):
     fx = ctx.facts("default")
-    fixtures.run(ctx, ['pair', 'marker'])
+    fixtures.run(ctx, ['pair', 'marker', 'varint'])
     # 1. primitives: every DataOutput::write_K against every DataInput::read_K
     W, Rd = {}, {}
     for fid in fx.fn_ids():
@@ -118,6 +118,9 @@ def run(ctx):
                               "strategy %s encodes with '%s' but decodes with '%s'" % (v, a, b), df.file, df.line)
     ctx.instance("R-VARIANT.inverse.arms", ndisp)
     ctx.floor("R-VARIANT.inverse.arms", 20)
+    # LEB128 writers decide "more bytes follow" exactly at the 7-bit limit
+    trunc.writer_threshold(ctx, fx, [f for f in fx.files() if f.startswith('src/io/')])
+    ctx.floor('R-VARINT.threshold.writers', 4)
     return dict(
         level_note="decides format agreement (widths, endianness, field order, prefix kinds, inverse dispatch); value round "
                    "trips (7-bit grouping, zigzag, delta, group-varint arithmetic), SIMD/scalar byte identity and buffered "
